@@ -201,6 +201,9 @@ fn run<T: Sc>(case: &C10Case) -> Check {
     out.nontrivial = case.ops.len() >= 3 && a.had_repeat_or_fail;
     out.count("fresh_problem_comparisons", a.fresh_compares + b.fresh_compares);
     out.class(case.base.flavour());
+    for r in case.base.regime() {
+        out.class(r);
+    }
     out.class(format!("ops={}", (case.ops.len() / 4) * 4));
     if case.ops.iter().any(|o| matches!(o, Op::SetWrongLen(_))) {
         out.class("op:wrong-length");
